@@ -139,7 +139,7 @@ class Check:
                 f.write(txt)
         meta = tempfile.mkdtemp(prefix="meta-", dir=self.scratch)
         w = workers or (1 if simulate or dfs else min(NCPU, 8))
-        jopts = ["-XX:+UseParallelGC", "-Xss64m"]
+        jopts = ["-XX:+UseParallelGC", "-Xss64m", "-Djava.io.tmpdir=" + meta]      # TLC's own temporary directory goes away with the scratch directory
         if heap:
             jopts.append("-Xmx%s" % heap)
         if dfs:
